@@ -66,6 +66,9 @@ def wellformed(rng, fmt, small=True):
         if rng.random() < 0.3:
             p['hdr_filler_seed'] = rng.getrandbits(30)
         if rng.random() < 0.3:
+            # not-NUL bytes after the NUL that ends the descriptor text, inside the descriptor's sectors
+            p['desc_stale'] = rng.choice(['ascii', 'utf8', 'late-utf8', 'bin1', 'bin%d' % rng.randrange(1000)])
+        if rng.random() < 0.3:
             p['body_fill'] = rng.choice([0x41, 0xff, 0x0a])
         if rng.random() < 0.3:
             p['shuffle_seed'] = rng.getrandbits(20)
